@@ -200,12 +200,11 @@ impl<Service: crate::service::Service, T: DataSegmentSharedState> Grow<ShmPointe
         content_placement: ContentPlacement,
     ) -> Result<ShmPointer, AllocationGrowError> {
         let state = self.state.lock();
-        let ptr = unsafe {
-            state
-                .port_shared_state
-                .lock()
-                .grow(ptr, old_layout, new_layout, content_placement)
-        }?;
+        let (ptr, header_len) = {
+            let port_state = state.port_shared_state.lock();
+            let ptr = unsafe { port_state.grow(ptr, old_layout, new_layout, content_placement) }?;
+            (ptr, port_state.header_len())
+        };
 
         state
             .offset_to_chunk
@@ -213,7 +212,10 @@ impl<Service: crate::service::Service, T: DataSegmentSharedState> Grow<ShmPointe
         state
             .shm_raw_ptr
             .store(ptr.data_ptr as usize, Ordering::Relaxed);
-        state.slice_len.store(new_layout.size(), Ordering::Relaxed);
+        // the layouts cover the whole chunk, `slice_len` only the payload (see `create_resizable_memory`)
+        state
+            .slice_len
+            .store(new_layout.size() - header_len, Ordering::Relaxed);
 
         Ok(ptr)
     }
